@@ -477,14 +477,28 @@ func Run(o *core.Options) int {
 	r := core.NewReport(o, "exploration",
 		"part 1 (splits): every engine configuration x every selected model x every tuple subset 1<=|T|<=K of the model's pool x EVERY split T = S (stored) + C (contextual, non-empty) x every request (Check over (object,relation) x 5 subjects, the same requests as one BatchCheck, ListObjects over 3 (type,relation) x 5 subjects, ListUsers over nodes x 2 filters, Expand over every (object,relation); request contexts {none,1,20} when T has a condition): answer with S stored and C contextual vs answer with all of T stored. "+
 			"part 2 (leak histories, all caches on, one fresh store per history): stored S (|S|<=1), histories <C1,none>, <C1,C2>, <none,C1,none> over contextual sets |C|<=Kc; every answer vs the same request on a cache-less server holding S, Read after every step shows exactly S. "+
-			"A deviation is re-executed 5 times on both sides and counts only if it shows at least once more. non-trivial = contextual part non-empty and the all-stored (part 2: fresh-server) answer is positive (T/ERR, non-empty set, tree with users or targets); distinct by (configuration, model, tuples, split/history step, request)")
+			"part 3 (seam, compositional): the shape of every datastore read issued under the Server API in parts 1-2 and on 3 probe models is recorded; every subset |T|<=K (3 quick, 4 thorough) of a 15/17-tuple colliding universe x EVERY split T = S + C (C non-empty) x every call of a battery covering all recorded and all declared caller shapes: storagewrappers.CombinedTupleReader(memory{S}, C) vs memory{S+C}, compared as multisets of (object, relation, user, condition name, condition context) rows, found/not-found for ReadUserTuple, ascending objects for sorted reads; non-trivial = a contextual row matches the call's filter in the all-stored result; the one deviating seam behaviour (sorted merge) is driven end to end through Check against the reference semantics. "+
+			"A deviation (parts 1-2) is re-executed 5 times on both sides and counts only if it shows at least once more. non-trivial = contextual part non-empty and the all-stored (part 2: fresh-server) answer is positive (T/ERR, non-empty set, tree with users or targets); distinct by (configuration, model, tuples, split/history step, request)")
 	r.Assume("memory datastore", "universe 2 users/2 groups/2 docs; rewrites of depth<=1; one condition cx(x:int):=x<10",
 		"compared per request: decision class T/F/ERR for Check and BatchCheck items (error codes are not compared), sorted sets for ListObjects/ListUsers, trees with tuple-to-userset targets sorted for Expand",
 		"the differential oracle uses the all-stored answer of the same server as the expectation (the property is an equivalence of two ways of supplying tuples; absolute correctness is C01/C05/C06/C30)",
 		"planner choices are random: both sides are re-executed; a request that is nondeterministic in the same way on both sides is not a C04 deviation (C02)",
 		"part 2 quick bound: stored and contextual tuples range over the pool tuples whose object is doc:1 or group:1; requests over those objects; ListUsers and Expand keep no cross-request state (request-local wrappers) and are not part of part 2")
+	r.Assume("part 3 (seam): memory datastore under the combined reader; the all-stored side is a memory datastore holding S+C; where a contextual tuple has the key of a stored one (Write rejects such a pair, the behaviour is undocumented) the reference is 'both rows are visible, ReadUserTuple returns the contextual row' and signatures are prefixed seam-shadow",
+		"part 3 judges only battery calls whose shape (method + form of every filter dimension) production callers issue: the declared caller shapes, asserted at run time to include every shape recorded under the Server API in parts 1-2 and on three probe models")
 	if o.Replay != "" {
 		return replay(o, r)
+	}
+	installRecorder()
+	seamOnly := false
+	for _, a := range o.Args {
+		if a == "seam-only" { // development: part 3 alone (shapes come from the probe models only)
+			seamOnly = true
+		}
+	}
+	if seamOnly {
+		seam(r, o)
+		return r.Finish()
 	}
 	k, nMain, nLeak, kc := 2, 4, 2, 1
 	if o.Thorough() {
@@ -545,6 +559,9 @@ func Run(o *core.Options) int {
 		leak(r, o, kit.Thin(models, nLeak), cfg, kc)
 	}
 	r.Set("configurations", cfgNames)
+	t3 := time.Now()
+	seam(r, o)
+	r.Set("seam_part3_wall_s", time.Since(t3).Seconds())
 	share := map[string]float64{}
 	apiNanos.Range(func(k, v any) bool { share[k.(string)] = float64(v.(*atomic.Int64).Load()) / 1e9; return true })
 	r.Set("seconds_inside_server_by_api_all_workers", share)
@@ -799,6 +816,12 @@ func histStr(h [][]ref.Tuple) string {
 // ---------------- replay ----------------
 
 func replay(o *core.Options, r *core.Report) int {
+	var probe struct {
+		Seam string `json:"seam"`
+	}
+	if err := core.LoadReplay(o.Replay, &probe); err == nil && probe.Seam != "" {
+		return replaySeam(o, r)
+	}
 	var c Case
 	if err := core.LoadReplay(o.Replay, &c); err != nil {
 		fmt.Println("replay:", err)
